@@ -196,6 +196,7 @@ func (x *world) endChecks(sess []*stcp.Session, conns []*conn) {
 
 // session scenario: one or two sessions, local senders/closer, peer writer/closer, faults by explorer choice
 type sessProg struct {
+	shared     bool // the payloads are sub-slices of ONE caller-owned array, handed over out of order
 	lateStart  bool // Send and Close are issued BEFORE Start (life-cycle order nobody wrote)
 	name       string
 	sessions   int
@@ -217,6 +218,7 @@ func sessScenario(p sessProg) *mc.Scenario {
 			var sess []*stcp.Session
 			var conns []*conn
 			accepted := make([][]string, p.sessions)
+			backings := make([][]byte, p.sessions)
 			for i := 0; i < p.sessions; i++ {
 				c := newConn(w, fmt.Sprintf("peer%d", i), p.faults)
 				s := stcp.NewSession(x.mgr, c)
@@ -230,8 +232,30 @@ func sessScenario(p sessProg) *mc.Scenario {
 						s.Start()
 						s.Start() // idempotent
 					}
-					for _, pl := range p.sends {
-						if err := s.Send([]byte(pl)); err == nil {
+					var offs []int
+					if p.shared {
+						// one array holding all payloads back to back; sent in the order 0, last, 1, ... so that a
+						// frame's spare capacity is the memory of a frame that is still queued
+						for _, pl := range p.sends {
+							offs = append(offs, len(backings[i]))
+							backings[i] = append(backings[i], pl...)
+						}
+						offs = append(offs, len(backings[i]))
+					}
+					order := make([]int, 0, len(p.sends))
+					for k := range p.sends {
+						order = append(order, k)
+					}
+					if p.shared && len(order) > 2 {
+						order = append([]int{0, len(order) - 1}, order[1:len(order)-1]...)
+					}
+					for _, k := range order {
+						pl := p.sends[k]
+						buf := []byte(pl)
+						if p.shared {
+							buf = backings[i][offs[k]:offs[k+1]] // len < cap: the rest of the array lies behind it
+						}
+						if err := s.Send(buf); err == nil {
 							w.Touch()
 							accepted[i] = append(accepted[i], pl)
 						}
@@ -266,6 +290,13 @@ func sessScenario(p sessProg) *mc.Scenario {
 				return true
 			})
 			x.endChecks(sess, conns)
+			if p.shared {
+				for i := range backings {
+					if want := strings.Join(p.sends, ""); string(backings[i]) != want {
+						w.Failf("session %d wrote into the caller's payload memory: the array handed to Send as sub-slices now reads %q, was %q", i, backings[i], want)
+					}
+				}
+			}
 			if p.flush {
 				for i, c := range conns {
 					want := strings.Join(accepted[i], "")
@@ -748,6 +779,7 @@ func scenarios() []*mc.Scenario {
 	for k := 0; k <= 3; k++ {
 		scs = append(scs, sessScenario(sessProg{name: fmt.Sprintf("local-close-flush/sends=%d", k), sessions: 1, sends: []string{"ab", "c", "def"}[:k], localClose: true, flush: true, pb: [2]int{3, 4}}))
 	}
+	scs = append(scs, sessScenario(sessProg{name: "local-close-flush/three-sub-slices-of-one-array", sessions: 1, shared: true, sends: []string{"AAAA", "BBBB", "CCCC"}, localClose: true, flush: true, pb: [2]int{2, 3}}))
 	scs = append(scs, sessScenario(sessProg{name: "local-close-flush/sends=2/peer-also-writes", sessions: 1, sends: []string{"ab", "c"}, localClose: true, peerFrames: "xy", flush: true, pb: [2]int{2, 3}}))
 	scs = append(scs,
 		sessScenario(sessProg{name: "late-start/send-send-close-then-start", sessions: 1, lateStart: true, sends: []string{"ab", "c"}, localClose: true, flush: true, pb: [2]int{3, 4}}),
@@ -789,7 +821,7 @@ func scenarios() []*mc.Scenario {
 
 func main() {
 	r := ev.Start("C16")
-	r.Rule("every interleaving (stated preemption / free-choice bounds, every select resolution) of the two session goroutines with local Send/Close, a peer that writes frames and may close, a read handler that may panic, and explorer-chosen injected faults (read error/timeout, write error/timeout; budget 1 quick / 2 thorough) over a fake net.Conn built from scheduler-visible channels; the accept loop over a fake listener with 1-3 connections and maximum 1-2, for the session manager and for the echo manager; oracles: exit callback exactly once per session, connection closed, both goroutines finished (else deadlock), connection count back to zero, never negative, never above the maximum at any scheduling decision, surplus connections closed on accept, bytes accepted by Send before a local Close reach the peer completely and in order")
+	r.Rule("every interleaving (stated preemption / free-choice bounds, every select resolution) of the two session goroutines with local Send/Close, a peer that writes frames and may close, a read handler that may panic, and explorer-chosen injected faults (read error/timeout, write error/timeout; budget 1 quick / 2 thorough) over a fake net.Conn built from scheduler-visible channels; the accept loop over a fake listener with 1-3 connections and maximum 1-2, for the session manager and for the echo manager; oracles: exit callback exactly once per session, connection closed, both goroutines finished (else deadlock), connection count back to zero, never negative, never above the maximum at any scheduling decision, surplus connections closed on accept, bytes accepted by Send before a local Close reach the peer completely and in order (also when the payloads are sub-slices of one caller-owned array, which the session must not write into)")
 	r.Assume("real kernel TCP is replaced by a fake net.Conn whose Read blocks on a channel and wakes on Close; deadlines are no-ops and timeouts are injected as explorer choices", "the accept loop is entered through the overlay hook VerifLoopAccept (LoopStart minus net.Listen)")
 	mc.Main(r, scenarios())
 }
